@@ -889,6 +889,28 @@ CredsEffect(s, c) ==
     THEN Answer(s, c, [NoRes EXCEPT !.status = 200, !.reason = s.credVal])
     ELSE Answer(s, c, Res(404, ""))
 
+\* Routing (rapi/router.go, rapi/server.go).  A request that is not one of the typed calls above is answered from
+\* the route table: call.name is the route (or "unknown"), call.which the HTTP method.  Unknown routes and the
+\* snapshot routes outside snapshot mode do not exist (404), a known route with another method is 405, /ping is
+\* 200, and the Logs / Telemetry subscription routes are stubs (the emulator has no telemetry service): 202 with
+\* a "not supported" error document, whoever asks and whatever the state.  None of them changes the state.
+RouteMethod ==
+    [ping |-> "GET", next |-> "GET", response |-> "POST", error |-> "POST", initerror |-> "POST",
+     restorenext |-> "GET", restoreerror |-> "POST", creds |-> "GET",
+     register |-> "POST", extnext |-> "GET", extiniterror |-> "POST", extexiterror |-> "POST",
+     logs |-> "PUT", telemetry |-> "PUT"]
+SnapshotRoutes == {"restorenext", "restoreerror", "creds"}
+RouteEffect(s, c) ==
+    LET r == s.calls[c].name
+        m == s.calls[c].which
+    IN IF r \notin DOMAIN RouteMethod THEN Answer(s, c, Res(404, ""))
+       ELSE IF r \in SnapshotRoutes /\ ~s.caching THEN Answer(s, c, Res(404, ""))
+       ELSE IF m # RouteMethod[r] THEN Answer(s, c, Res(405, ""))
+       ELSE CASE r = "ping" -> Answer(s, c, Res(200, ""))
+              [] r = "logs" -> Answer(s, c, Res(202, "Logs.NotSupported"))
+              [] r = "telemetry" -> Answer(s, c, Res(202, "Telemetry.NotSupported"))
+              [] OTHER -> Answer(s, c, Res(0, ""))      \* the typed calls have their own effects; not issued as "route"
+
 EffectEn(s, c) ==
     /\ c \in DOMAIN s.calls /\ s.calls[c].st = "issued"
     /\ (s.calls[c].api = "response" => Free(s, "server.sendResponse"))
@@ -906,9 +928,7 @@ EffectDo(s, c) ==
       [] call.api = "creds" -> CredsEffect(s, c)
       [] call.api = "register" -> RegisterEffect(s, c)
       [] call.api = "exterror" -> ExtErrorEffect(s, c)
-      \* routing: unknown routes, wrong methods, snapshot routes outside snapshot mode (class in call.name)
-      [] call.api = "route" -> Answer(s, c, [NoRes EXCEPT !.status = IF call.name = "404" THEN 404
-                                                                      ELSE IF call.name = "405" THEN 405 ELSE 200])
+      [] call.api = "route" -> RouteEffect(s, c)
       [] OTHER -> Answer(s, c, Res(404, ""))
 
 \* a parked poll is released (Release: flag := TRUE, Signal)
